@@ -906,6 +906,14 @@ func (s *TxStore) Rollback(tx mwdb.DBTransaction, height uint64) error {
 					return err
 				}
 
+				walletBal, ok := allMined[ma.Account()]
+				if !ok {
+					// The wallet is being removed: its unspent entries and its
+					// balance are already gone, the remaining records follow in
+					// the next removal steps. Do not bring anything back.
+					continue
+				}
+
 				unspentVal, err := fetchNsUnspentValueFromRawCredit(credKey)
 				if err != nil {
 					return err
@@ -916,7 +924,7 @@ func (s *TxStore) Rollback(tx mwdb.DBTransaction, height uint64) error {
 				if err != nil {
 					return err
 				}
-				newBal, err := allMined[ma.Account()].Add(cred.amount)
+				newBal, err := walletBal.Add(cred.amount)
 				if err != nil {
 					return err
 				}
